@@ -25,6 +25,8 @@
 //!             transport pend from now on, `@unblock` lets the pending and all later writes complete
 //!             (what is written then is attributed to the last frame sent while blocked). `@failwrite`
 //!             makes the reply write of the next frame fail with BrokenPipe (Wire::fail_next_write).
+//!             `@hold<k>:<ms>`: another thread takes the lock of unit k's handler object and keeps it for <ms> real
+//!             milliseconds.
 //!             Scripted transmit side (Wire::script_writes): `@Wa<k>` the next write call is taken only up to k bytes,
 //!             `@Wb` the next write call is parked, `@R` room again (releases a parked write; what is written then is an
 //!             extra reply entry). Pieces of one reply may therefore be spread over several entries.
@@ -338,6 +340,12 @@ pub fn parse_unit(s: &str, log: &Log) -> (u8, Handler) {
 }
 
 pub fn parse_units(field: &str, log: &Log) -> ServerHandlerMap<Handler> {
+    parse_units_with_handles(field, log).0
+}
+
+/// the handler map and, per unit id, the handler object (`Arc<Mutex<Box<Handler>>>`) registered under it
+pub fn parse_units_with_handles(field: &str, log: &Log) -> (ServerHandlerMap<Handler>, Vec<(u8, rodbus::server::ServerHandlerType<Handler>)>) {
+    let mut all: Vec<(u8, rodbus::server::ServerHandlerType<Handler>)> = Vec::new();
     let mut map: ServerHandlerMap<Handler> = ServerHandlerMap::new();
     if field != "-" {
         // owners first, inserted in reverse, so that the order the session task visits them in
@@ -348,6 +356,7 @@ pub fn parse_units(field: &str, log: &Log) -> ServerHandlerMap<Handler> {
                 let (id, h) = parse_unit(u, log);
                 let h = h.wrap();
                 owners.push((id, h.clone()));
+                all.push((id, h.clone()));
                 map.add(UnitId::new(id), h);
             }
         }
@@ -357,11 +366,12 @@ pub fn parse_units(field: &str, log: &Log) -> ServerHandlerMap<Handler> {
                 let id: u8 = id.parse().expect("unit id");
                 let owner: u8 = owner.parse().expect("owner unit id");
                 let h = owners.iter().find(|(o, _)| *o == owner).expect("owner must be configured").1.clone();
+                all.push((id, h.clone()));
                 map.add(UnitId::new(id), h);
             }
         }
     }
-    map
+    (map, all)
 }
 
 /// merge ascending runs of single-address read entries: rc.1.5, rc.1.6 -> rc.1.5-6
@@ -478,7 +488,7 @@ fn run_case(line: &str, decode: DecodeLevel) -> String {
         x => panic!("bad framing {x}"),
     };
     let log: Log = Arc::new(Mutex::new(Vec::new()));
-    let map = parse_units(f[1], &log);
+    let (map, handles) = parse_units_with_handles(f[1], &log);
     let auth: Option<(Arc<dyn AuthorizationHandler>, String)> = if f[2] == "none" {
         None
     } else {
@@ -525,6 +535,22 @@ fn run_case(line: &str, decode: DecodeLevel) -> String {
                     }
                     "block" => {
                         gate.lock().unwrap().blocked = true;
+                    }
+                    x if x.starts_with("hold") => {
+                        // hold<k>:<ms>: ANOTHER THREAD takes the lock of unit k's handler object now and keeps it for
+                        // <ms> real milliseconds (an application thread working on its points). The session thread
+                        // that needs this handler meanwhile waits inside `lock()`; the script goes on after that.
+                        let (k, ms) = x[4..].split_once(':').expect("hold<k>:<ms>");
+                        let (k, ms): (u8, u64) = (k.parse().expect("unit"), ms.parse().expect("ms"));
+                        let h = handles.iter().find(|(u, _)| *u == k).expect("hold: unit not configured").1.clone();
+                        let (ready_tx, ready_rx) = std::sync::mpsc::channel();
+                        std::thread::spawn(move || {
+                            let _guard = h.lock().unwrap();
+                            let _ = ready_tx.send(());
+                            std::thread::sleep(std::time::Duration::from_millis(ms));
+                        });
+                        let _ = ready_rx.recv();
+                        continue;
                     }
                     "Wb" => {
                         // the transmit path is full: the next write call is parked until @R
